@@ -35,6 +35,7 @@ import OpmVerif.Proofs.ActionNumVal
 import OpmVerif.Proofs.ActionParseKit
 import OpmVerif.Proofs.ActionString
 import OpmVerif.Proofs.ActionFmt
+import OpmVerif.Proofs.ActionRestart
 
 namespace OpmVerif.Props.C18
 open OpmVerif.Act
@@ -338,6 +339,14 @@ theorem act_string_roundtrip (gf : String → Nat) (c : Cond) (h : StrOK gf c) :
     parse ((condStrings c).map (lexS gf)) = .tree c :=
   string_roundtrip gf c h
 
+/-- … and therefore whatever is computed from the tree — `evalCond` with any context, the match set — is the same
+before and after printing and re-reading ("classify and evaluate the same") -/
+theorem act_string_roundtrip_eval {α : Type} (gf : String → Nat) (c : Cond) (h : StrOK gf c) (f : Cond → α) :
+    (match parse ((condStrings c).map (lexS gf)) with
+     | .tree c' => some (f c')
+     | _ => none) = some (f c) := by
+  rw [string_roundtrip gf c h]
+
 /-- **a restart constant is always a number token**: whatever `format_double` prints for a finite double (the
 `int` form or the `%f` form) is in the number grammar, so `get_type` classifies it as a number -/
 theorem restart_constant_is_number (b : Nat) (s : List Char) (h : fmtDouble b = some s) : classify s = .number :=
@@ -364,6 +373,28 @@ example : fmtDouble 0x3FB999999999999A = some "0.100000".toList := by decide +ke
 example : fmtDouble 0x41E65A0BC0000000 = none := by decide +kernel
 example : (2 : Nat) ^ 3 ≤ 10 ∧ 10 < 2 ^ (3 + 1) ∧
     (0 + (3 + 1023) * 2 ^ 52 + (10 * 2 ^ (52 - 3) - 2 ^ 52) : Nat) = 0x4024000000000000 := by decide
+
+/-- **the hypothesis `NumRT` of `act_string_roundtrip` holds for every integer-valued constant inside the `int`
+range** (`±n`, `1 ≤ n < 2^31`, given by its binary64 pattern `intBits`, and 0): `format_double` prints
+`std::to_string(±n)`, that text is a number token, and `strtod` gives the same bits back.  So a condition whose
+constants are such integers is re-read from a restart file as the same tree (and therefore evaluates the same,
+`eval_matches_tree`); for other constants the real code does NOT have this property (design.d/C18.md, finding). -/
+theorem restart_integer_constant_survives (neg : Bool) (k n : Nat) (hk : k ≤ 30) (h1 : 2 ^ k ≤ n)
+    (h2 : n < 2 ^ (k + 1)) : NumRT (UInt64.ofNat (intBits neg k n)) :=
+  numRT_int neg k n hk h1 h2
+
+theorem restart_zero_constant_survives : NumRT 0 := numRT_zero
+
+/-- what `format_double` prints for such a constant -/
+theorem format_double_integer (neg : Bool) (k n : Nat) (hk : k ≤ 30) (h1 : 2 ^ k ≤ n) (h2 : n < 2 ^ (k + 1)) :
+    fmtDouble (intBits neg k n) = some (fmtInt neg n) :=
+  fmtDouble_intBits neg k n hk h1 h2
+
+example : intBits false 3 10 = 0x4024000000000000 := by decide
+example : NumRT 0x4024000000000000 := by
+  have h := numRT_int false 3 10 (by decide) (by decide) (by decide)
+  have e : UInt64.ofNat (intBits false 3 10) = 0x4024000000000000 := by decide +kernel
+  rw [e] at h; exact h
 
 example : condStrings (.cmp .gt (.expr "WOPR" 2 ["P1"]) (.num 0x4024000000000000)) = ["WOPR", "P1", ">", "10"] := by
   decide +kernel
